@@ -818,6 +818,62 @@ def _check_inner_call(res, inner, outer, c, B, params, fn):
     return res
 
 
+def cubic_mono_rule(ctx):
+    """SPL-CUBMONO.  The Hermite cubic on a bin is increasing when both knot derivatives lie between 0 and three
+    times the bin's slope (Fritsch-Carlson).  The interior derivatives of `cubic_spline` come from the min-mod
+    formula; the two *end* derivatives are free, and are kept in range by construction:
+    sigmoid(u) * 3 * slope_of_the_edge_bin.  Decided on every definition of the two end pieces of the
+    `torch.cat([left, interior, right], -1)` that forms the knot derivatives: in monomial normal form each is
+    c * sigmoid(.) * slopes[first / last bin] with 0 < c <= 3.  A constant end derivative (one, "to meet an
+    identity tail smoothly") overshoots in a flat edge bin: the spline turns back and its log-det is NaN there."""
+    from ..prodnf import NotMonomial, monomial
+
+    p = ctx.p
+    res = RuleResult("SPL-CUBMONO", "the two end derivatives of the cubic spline are sigmoid(.) * c * slope of the edge bin with 0 < c <= 3 on every path (monotone Hermite pieces)")
+    fi = next((f for f in (x[0] for x in spline_funcs(p)) if f.name == "cubic_spline"), None)
+    if fi is None:
+        raise AnalysisIncomplete("cubic_spline not found")
+    fn = fi.node
+    assigns = {}
+    for n in ast.walk(fn):
+        if isinstance(n, ast.Assign) and len(n.targets) == 1 and isinstance(n.targets[0], ast.Name):
+            assigns.setdefault(n.targets[0].id, []).append(n.value)
+    cats = [v for vs in assigns.values() for v in vs if isinstance(v, ast.Call) and norm_text(v.func) in ("torch.cat", "torch.concat") and v.args and isinstance(v.args[0], (ast.List, ast.Tuple)) and len(v.args[0].elts) == 3 and any(isinstance(x, ast.Name) and "deriv" in x.id for x in v.args[0].elts)]
+    if not cats:
+        res.undecide("cubic_spline", "the knot derivatives are not assembled as cat([left, interior, right], -1)")
+        return res
+    n = 0
+    for cat in cats:
+        for which, el in (("first", cat.args[0].elts[0]), ("last", cat.args[0].elts[2])):
+            defs = assigns.get(el.id, []) if isinstance(el, ast.Name) else [el]
+            if not defs:
+                res.undecide("cubic_spline", "no definition of the %s end derivative `%s`" % (which, norm_text(el)))
+                continue
+            for d in defs:
+                n += 1
+                verdict = None
+                try:
+                    c, m = monomial(d)
+                    texts = []
+                    for a, k in m.items():
+                        texts.append((a[1] if isinstance(a, tuple) and a[0] == "leaf" else str(a), k))
+                    sig = [t for t, k in texts if "sigmoid(" in t and k == 1]
+                    edge = ("slopes[..., 0]", "slopes[..., :1]", "slopes[..., 0:1]") if which == "first" else ("slopes[..., -1]", "slopes[..., -1:]")
+                    slo = [t for t, k in texts if k == 1 and any(t.replace(" ", "").startswith(e.replace(" ", "")) or ("(%s)" % e).replace(" ", "") in t.replace(" ", "") for e in edge)]
+                    others = [t for t, k in texts if t not in sig and t not in slo]
+                    if len(sig) == 1 and len(slo) == 1 and not others and 0 < c <= 3:
+                        verdict = "ok"
+                except NotMonomial:
+                    pass
+                if verdict == "ok":
+                    res.ok("cubic_spline: the %s end derivative is %s * sigmoid(.) * slope of the %s bin" % (which, c, which))
+                else:
+                    res.fail(Finding("SPL-CUBMONO", fi.module, fi.qualname, d, "the %s end derivative of the cubic spline is `%s`, not sigmoid(.) * c * (slope of the %s bin) with c <= 3: nothing ties it to that bin's slope, so in a flat edge bin (slope below a third of it) the Hermite cubic overshoots and comes back -- the transformer is not increasing there and its log-abs-det is NaN" % (which, norm_text(d)[:70], which), construct="%s end derivative of cubic_spline" % which))
+    if n < 2:
+        raise AnalysisIncomplete("SPL-CUBMONO: %d end-derivative definitions (< 2)" % n)
+    return res
+
+
 def square_rule(ctx):
     """SPL-SQUARE: linear / quadratic / cubic test the domain against (left, right) in both
     directions and omit the box-scale term: correct exactly when the box is square."""
